@@ -1,5 +1,6 @@
 import TinysetModel.Proofs.CapSpec
 import TinysetModel.Proofs.CoreInst
+import TinysetModel.Proofs.AllocProgram
 /-! C11 — heap footprint stays linear in the member count and is truthfully reported.
 `Hist c g r M` (Proofs/CapSpec.lean) is "`r` was reached by some history of new / collect / insert / remove /
 extend / clone / with_capacity_of / drain / the six operators, and `M` is the largest `len` the set or
@@ -35,6 +36,21 @@ theorem block_words {c : Cfg} (ok : CfgOK c) (cc : CapCfg c) (hW : c.W = 64 ∨ 
 theorem mem_used_truthful (c : Cfg) (r : Rp) : memUsed c r = 8 + blockBytes c r := rfl
 theorem block_bytes_heap (c : Cfg) (sz cap bits : Nat) (a : RH.Tbl) :
     blockBytes c (.heap sz cap bits a) = cap * elemBytes c + headerBytes c := rfl
+
+/-- "the bytes of the heap block actually owned" in terms of the allocator: what `mem_used()` reports beyond the
+inline word is exactly what the allocator's ledger holds for this set (`owned`: the size that was passed to
+`alloc_zeroed` / `realloc` for the block the set now has — `Model/Alloc.lean`, compared call by call with the real
+allocator's record on every run) -/
+theorem mem_used_is_ledger (c : Cfg) (r : Rp) : memUsed c r = 8 + (owned c r).sum := by
+  cases r <;> simp [memUsed, wordBytes, blockBytes, owned]
+/-- … and after any `insert` the ledger holds exactly that block for the set: whatever the operation requested
+and released on the way (rebuilds, nested rebuilds, in-place growth), what remains allocated is `mem_used() - 8` -/
+theorem mem_used_after_insert {c : Cfg} (fresh : Bool) (g : Rng D) (fuel : Nat) {r : Rp} {e : Nat} {d d' : D}
+    {res : Rp × Bool} {evs : List Ev} (h : insertE c fresh g fuel r e d = .ok ((res, evs), d')) :
+    ∃ L', runEv (owned c r) evs = some L' ∧ memUsed c res.1 = 8 + L'.sum := by
+  have := (insertE_balanced fresh g fuel).ok h []
+  simp only [List.append_nil] at this
+  exact ⟨_, this, mem_used_is_ledger c res.1⟩
 
 /-- one insert never multiplies the capacity: the step form of the bound (every fuel, every generator) -/
 theorem insert_step_bound {c : Cfg} (ok : CfgOK c) (cc : CapCfg c) (g : Rng D) (fuel : Nat) :
